@@ -147,9 +147,24 @@ def mc_parts(chk, tier):
             chk.add_mc(c, r, constants=open(os.path.join(SPEC, c)).read().split("\n")[1])
 
 
+def mc_seqc_part(chk, w, tier):
+    """C09 on the specification: the composed caching search (sequential loop x DD.tla with cache filter and thresholds x ThresholdCache)"""
+    thorough = tier == "thorough"
+    tr = os.path.join(w, "seqc_insts.ndjson")
+    run_bin("dd", ["--seed", SEED * 1000 + 77, "--instances", 120 if not thorough else 600, "--per-instance", 1, "--family", "reconv", "--dd", "lel", "--out", tr])
+    insts = [e["inst"] for e in read_ndjson(tr) if e["ev"] == "reset" and e["inst"]["family"] in ("lifted", "knapsack") and e["inst"]["n"] <= 6]
+    insts = insts[: (60 if not thorough else 400)]
+    f = os.path.join(w, "seqc_insts.json")
+    json.dump(insts, open(f, "w"))
+    r = mc("MC_SeqC", "MC_SeqC.cfg", workers=8, env={"INSTS": f}, timeout=3600, require_actions=False)
+    chk.add_mc("MC_SeqC.cfg", r, constants=f"Widths = {{1,2}} Cuts = {{lel, fc}}; {len(insts)} re-convergent instances (2 base states per layer x 3 decisions, knapsacks with 2 distinct weights; n <= 6): {4 * len(insts)} complete caching searches, every tie-break")
+
+
 def extra_parts(chk, w, tier):
     """parts of a property decided by another engine"""
     mc_parts(chk, tier)
+    if chk.pid == "C09":
+        mc_seqc_part(chk, w, tier)
     if chk.pid == "C10":
         import components
         components.c10_component(chk, w, tier)
